@@ -707,8 +707,48 @@ def from_worklist_via_from(b, op, work, THR):
     return r in work and 'next' in via
 
 
+def r167(facts, res):
+    """The derived views are flat bit vectors, one row per state.  An accessor that scans `iter_set_bits(start..end)` must scan
+    a whole row: start = state * W and end = start + W for the SAME width W.  A shorter range silently drops the last columns
+    (core_reduces: the productions numbered last - with %implicit_tokens those are real reductions)."""
+    R = 'R16.7'
+    from linarith import lin
+    n = 0
+    for b in facts.lib_bodies(['lrtable']):
+        if b.kind == 'closure' or b.from_expansion or 'statetable::StateTable<' not in (b.impl_of or '') and 'StateTable' not in b.path:
+            continue
+        if not b.calls_named('iter_set_bits'):
+            continue
+        for p in Walker(b, facts, max_paths=64).run():
+            for e in p.calls(name='iter_set_bits'):
+                args = e[3]
+                rng = [a for a in args if isinstance(a, tuple) and a and a[0] == 'variant' and a[3] == 'Range']
+                if not rng:
+                    continue
+                n += 1
+                st, en = rng[0][4][0], rng[0][4][1]
+                key = 'row-scan:%s' % strip_generics(b.path).split('::')[-1]
+                def is_len_field(y):
+                    return isinstance(y, tuple) and len(y) > 3 and y[0] == 'field' and isinstance(y[3], str) and y[3].endswith('_len')
+                d = lin(en) - lin(st)
+                # end - start must be exactly one width: a (converted) `*_len` field of the table, once, and nothing else
+                atoms = [(a, v) for a, v in d.c.items()]
+                W = atoms[0][0] if len(atoms) == 1 and atoms[0][1] == 1 and term_has(atoms[0][0], is_len_field) else None
+                if W is None or d.k != 0:
+                    what = ('a width and the constant %d' % d.k) if W is not None else fmt_term(('lin', str(sorted((fmt_term(a)[:40], v) for a, v in atoms)), d.k))[:120]
+                    res.bad(R, key, loc_of(b, e[1]), 'the scanned range is not a whole row: end - start is %s, not exactly one `*_len` width of the table' % what, {'function': b.path})
+                    continue
+                fld = [y for y in subterms(W) if is_len_field(y)][0]
+                if not term_has(st, lambda y: y == fld):
+                    res.bad(R, key, loc_of(b, e[1]), 'the row start %s is not computed from the width `%s` that the range adds to it' % (fmt_term(st)[:80], fld[3]), {'function': b.path})
+                    continue
+                res.ok(R, key, loc_of(b, e[1]), 'scans start .. start + %s, the whole row; the start is computed from the same width' % fmt_term(W)[:60])
+    res.floor(R, 'row scans of the derived views', n, 3)
+
+
 def run(facts, res):
     r166(facts, res)
+    r167(facts, res)
     ctx = r161(facts, res)
     if ctx:
         r162(facts, res, ctx)
